@@ -166,7 +166,8 @@ func runC18(o *Out, rng *Rng, tier string, replay string) {
 		}
 		// invalid coordinates on either side
 		bad := genInvalidPoint(r)
-		for _, pr := range [][2]llPoint{{bad, a}, {a, bad}} {
+		bad2 := genInvalidPoint(r)
+		for _, pr := range [][2]llPoint{{bad, a}, {a, bad}, {bad, bad}, {bad, bad2}} { // also two invalid points, identical or not
 			x, err := dist(pr[0], pr[1])
 			if err == nil {
 				coq = append(coq, fmt.Sprintf("GDist %d %d %d %d (Some %d)", fbits(pr[0].lat), fbits(pr[0].lon), fbits(pr[1].lat), fbits(pr[1].lon), fbits(x)))
